@@ -153,6 +153,22 @@ Theorem dba_finish_safe :
     satisfying cs infinity (held (fst (step P (fst (run P sched)) a))).
 Proof. exact finish_safe. Qed.
 
+(* the same, phrased for an arbitrary run: if any computation calls finished() during a run, the run
+   splits at its FIRST finished() and dba_finish_safe applies to that step *)
+Theorem dba_finish_safe_any_run :
+  forall cs ncs dom infinity maxd orc0 (sched : list (@action)) (n : node),
+    wf_problem cs ncs -> 0 < infinity ->
+    In (EvFinished n) (snd (run (dba_proto cs ncs dom infinity maxd orc0) sched)) ->
+    exists pre a rest n1, sched = pre ++ a :: rest
+      /\ (forall m, ~ In (EvFinished m) (snd (run (dba_proto cs ncs dom infinity maxd orc0) pre)))
+      /\ In (EvFinished n1) (snd (step (dba_proto cs ncs dom infinity maxd orc0)
+                                        (fst (run (dba_proto cs ncs dom infinity maxd orc0) pre)) a))
+      /\ ((forall x, occurs cs x -> within cs ncs (Z.to_nat maxd) n1 x) ->
+          satisfying cs infinity
+            (held (fst (step (dba_proto cs ncs dom infinity maxd orc0)
+                             (fst (run (dba_proto cs ncs dom infinity maxd orc0) pre)) a)))).
+Proof. exact finish_safe_any_run. Qed.
+
 (* non-vacuity: an instance meeting every hypothesis of dba_sync_finish_safe_partial, in which the
    assignment violates the constraint in round 0 and a computation stops in round 1; and an
    asynchronous run of the same instance that reaches finished() *)
